@@ -131,11 +131,35 @@ fn gen_big_tables_tile(rng: &mut Rng) -> GTile {
 
 fn impl_decode(b: &[u8]) -> Result<VectorTile, String> { match guarded(|| VectorTile::from_blob(&Blob::from(b.to_vec()))) { Ok(Ok(t)) => Ok(t), Ok(Err(_)) => Err("err".into()), Err(_) => Err("panic".into()) } }
 
+/// the generated source `from_debug` (its stream computes the tiles with `TileStream::from_coord_iter_parallel`, i.e. in parallel
+/// worker tasks): on a runtime with several workers every streamed tile must be the tile the single lookup gives for its coordinate
+pub fn debug_stream_mismatches(thorough: bool, cases: &mut u64) -> Result<Vec<(String, String)>> {
+	let mut bad = Vec::new();
+	let rt8 = tokio::runtime::Builder::new_multi_thread().worker_threads(8).enable_all().build()?;
+	for (vpl, boxes) in [("from_debug format=pbf", vec![(5u8, 3u32, 4u32, 12u32, 11u32), (8, 10, 100, 41, 163), (9, 100, 200, 107, 205), (0, 0, 0, 0, 0), (2, 0, 0, 3, 3)]), ("from_debug format=png fast=true", vec![(3u8, 1u32, 1u32, 3u32, 2u32)])] {
+		let Ok(Ok(op)) = guarded(|| rt8.block_on(factory().operation_from_vpl(vpl))) else { continue };
+		'rounds: for round in 0..(if thorough { 12 } else { 3 }) { for (z, x0, y0, x1, y1) in &boxes {
+			let bb = TileBBox::new(*z, *x0, *y0, *x1, *y1).unwrap(); let b2 = bb.clone(); *cases += 1;
+			let desc = format!("{vpl}: stream over {bb:?} (round {round}) on a runtime with 8 workers");
+			let Ok(items) = guarded(|| rt8.block_on(async { op.get_tile_stream(b2).await.collect().await })) else { bad.push((desc, "stream panicked".to_string())); continue; };
+			let mut got: Vec<(u32, u32, Vec<u8>)> = items.iter().map(|(c, b)| (c.x, c.y, b.as_slice().to_vec())).collect(); got.sort();
+			let mut exp: Vec<(u32, u32, Vec<u8>)> = Vec::new();
+			for c2 in bb.iter_coords() { if let Ok(Ok(Some(b))) = guarded(|| rt8.block_on(op.get_tile_data(&TileCoord3 { x: c2.x, y: c2.y, z: bb.level }))) { exp.push((c2.x, c2.y, b.as_slice().to_vec())); } }
+			exp.sort();
+			if got != exp {
+				let wrong: Vec<(u32, u32)> = got.iter().filter(|g| !exp.contains(g)).map(|g| (g.0, g.1)).take(8).collect();
+				bad.push((desc, format!("stream delivers {} tiles, lookups give {}; streamed tiles that differ from their lookup (first 8): {:?}", got.len(), exp.len(), wrong))); break 'rounds; }
+		} }
+	}
+	Ok(bad)
+}
+
 /// C02 / C03 for the vector-tile operators: `from_vectortiles_merged` over sources that hold tiles at shared and at
 /// private coordinates, store them in different compressions and suspend a different number of times before they
 /// answer.  A stream over a box must deliver exactly the tiles the single lookups return inside it - each once, with
 /// identical bytes - and every delivered tile must lie inside the advertised coverage.
 pub fn run_stream_vs_lookup(ctx: &Ctx, col: &mut Collector) -> Result<()> {
+	for (desc, detail) in debug_stream_mismatches(ctx.thorough, &mut col.spec_cases)? { col.violation("vector-stream-vs-lookup", &desc, &desc, &detail); }
 	let mut rng = Rng::new(ctx.seed ^ 0xc02_1011);
 	let rt = tokio::runtime::Builder::new_multi_thread().worker_threads(2).enable_all().build()?;
 	let comps = [TileCompression::Uncompressed, TileCompression::Gzip, TileCompression::Brotli];
